@@ -11,6 +11,7 @@ package main
 
 import (
 	"bufio"
+	"context"
 	"encoding/json"
 	"flag"
 	"fmt"
@@ -196,7 +197,9 @@ func runParent(repo, verif, prop, tier string, noEvidence bool) int {
 			defer wg.Done()
 			sem <- struct{}{}
 			defer func() { <-sem }()
-			cmd := exec.Command(self, "-worker", "-repo", repo, "-config", cfg, "-prop", prop, "-tier", tier)
+			ctx, cancel := context.WithTimeout(context.Background(), 15*time.Minute)
+			defer cancel()
+			cmd := exec.CommandContext(ctx, self, "-worker", "-repo", repo, "-config", cfg, "-prop", prop, "-tier", tier)
 			cmd.Stderr = os.Stderr
 			out, err := cmd.Output()
 			dec := json.NewDecoder(strings.NewReader(string(out)))
